@@ -39,7 +39,7 @@ DEFAULTS: Dict[str, Any] = dict(
     max_depth=3, ops_per_step=(2, 5), big_corr=False, autograd=False, bwd_annotation=True, step_gap=(0, 1, 1, 7),
     pre_ops=1, post_ops=1, first_step=None, file_order="time", p_plain_rt=0.08, kernel_durs=(0, 1, 5, 20, 60),
     launch_lat=(0, 0, 1, 3, 10), queue_lat=(0, 0, 1, 5, 40), device_pid=0, repeat_names=False, annotation_nest=False,
-    p_leaf_children=(0, 3), ops_pool=None, p_unlaunched=0.0, sync_straddle=False,
+    p_leaf_children=(0, 3), ops_pool=None, p_unlaunched=0.0, sync_straddle=False, source_counters=False, outer_frame=False,
 )
 
 
@@ -238,6 +238,21 @@ class Sim:
 
     def main_prog(self, th: Dict[str, Any]):
         p = self.p
+        outer = None
+        if p["outer_frame"]:
+            # the training loop's own frame (with_stack=True) or an outer record_function encloses everything on the main thread
+            outer = self.X(self.r.choice(["python_function", "user_annotation"]), "train.py(42): train_loop", self.host_pid, th["tid"], th["t"], 0, {})
+            outer_ts = th["t"]
+            th["t"] += self.r.choice([0, 1])
+        yield from self._main_body(th)
+        if outer is not None:
+            th["t"] += self.r.choice([0, 1])
+            outer["dur"] = max(1, th["t"] - outer_ts)
+            th["t"] = outer_ts + outer["dur"]
+            yield
+
+    def _main_body(self, th: Dict[str, Any]):
+        p = self.p
         for _ in range(p["pre_ops"]):
             yield from self.op(th, 0, self.ops_pool)
         first = p["first_step"] if p["first_step"] is not None else self.r.randint(3, 900)
@@ -317,6 +332,11 @@ class Sim:
                 {"ph": "X", "cat": "Trace", "name": f"PyTorch Profiler ({self.rank})", "pid": "Spans", "tid": "PyTorch Profiler", "ts": t0,
                  "dur": end - t0 + 10, "args": {"Op count": 0}},
                 {"ph": "i", "name": "Record Window End", "pid": "", "tid": "", "ts": end + 10, "s": "g"}]
+        if p["source_counters"]:
+            # traces may already carry counter tracks (power, memory, an earlier *_with_counters run)
+            for k in range(self.r.randint(1, 4)):
+                meta.append({"ph": "C", "name": self.r.choice(["GPU 0 power (W)", "Queue Length", "[memory]"]), "pid": self.r.choice([0, self.host_pid]),
+                             "tid": 0, "ts": t0 + self.r.randint(0, max(1, end - t0)), "args": {"value": self.r.randint(0, 300)}})
         # interleave the non-complete entries so ids are not contiguous
         extra = flows + meta
         self.r.shuffle(extra)
@@ -385,7 +405,7 @@ def random_params(rnd: random.Random, tier: str, **over: Any) -> Dict[str, Any]:
         big_corr=rnd.random() < 0.3, autograd=rnd.random() < 0.3, bwd_annotation=rnd.random() < 0.6,
         pre_ops=rnd.choice([0, 1, 2]), post_ops=rnd.choice([0, 1, 2]),
         file_order=rnd.choice(["time", "time", "grouped", "shuffled"]), repeat_names=rnd.random() < 0.3,
-        annotation_nest=rnd.random() < 0.3, p_unlaunched=rnd.choice([0.0, 0.0, 0.1]), sync_straddle=rnd.random() < 0.3,
+        annotation_nest=rnd.random() < 0.3, p_unlaunched=rnd.choice([0.0, 0.0, 0.1]), sync_straddle=rnd.random() < 0.3, source_counters=rnd.random() < 0.25, outer_frame=rnd.random() < 0.2,
     )
     if p["autograd"]:
         p["n_threads"] = max(2, p["n_threads"])
